@@ -1,1 +1,233 @@
-// c06 harnesses
+// C06: deadlines and retries — bounded, exact, and safe to hit at any moment.
+//
+// Time is a harness variable: embassy_time_driver::now is stubbed by a virtual clock which the
+// harness advances between steps, so "the deadline passes here" is a choice of the model.
+use crate::{
+    Command, PduStorage, RetryBehaviour,
+    error::{Error, TimeoutError},
+    pdu_loop::{VERIF_FIRST_PDU_EMPTY as FIRST_PDU_EMPTY, VerifFrameState as FrameState},
+    verif::{c02::pdu_timeout, support::*},
+};
+use core::{future::Future, pin::pin, task::{Context, Poll}};
+
+const FRAME: usize = 32; // 16 bytes of datagram area: one FPRD with 2 data bytes (14 bytes)
+
+fn retries_from(choice: u8) -> usize {
+    match choice {
+        0 => RetryBehaviour::None.retry_count(),
+        1 => RetryBehaviour::Count(0).retry_count(),
+        2 => RetryBehaviour::Count(1).retry_count(),
+        _ => RetryBehaviour::Count(2).retry_count(),
+    }
+}
+
+fn timeout_count(max_choice: u8) {
+    static STORAGE: PduStorage<1, FRAME> = PduStorage::new();
+    let (mut tx, _rx, pdu_loop) = STORAGE.try_split().unwrap();
+    let w = noop_waker();
+    let mut cx = Context::from_waker(&w);
+    set_now(0);
+    let choice: u8 = kani::any();
+    kani::assume(choice <= max_choice);
+    let r = retries_from(choice);
+    let mut frame = pdu_loop.alloc_frame().unwrap();
+    let _h = frame.push_pdu(Command::fprd(kani::any(), 0x0130).into(), (), Some(2)).unwrap();
+    let mut fut = pin!(frame.mark_sendable(&pdu_loop, pdu_timeout(), r));
+
+    let mut first = [0u8; 30];
+    let mut sends = 0usize;
+    let mut now = 0u64;
+    let mut result = None;
+    let mut round = 0;
+    // every transmission is lost; TX services the frame before each deadline (property's assumption)
+    while round < 4 {
+        match fut.as_mut().poll(&mut cx) {
+            Poll::Ready(x) => {
+                result = Some(x);
+                break;
+            }
+            Poll::Pending => {}
+        }
+        if let Some(sf) = tx.next_sendable_frame() {
+            let res = sf.send_blocking(|b| {
+                assert!(b.len() == 30);
+                let mut i = 0;
+                while i < 30 {
+                    if sends == 0 {
+                        first[i] = b[i];
+                    } else {
+                        // every retransmission is byte-identical to the first
+                        assert!(b[i] == first[i]);
+                    }
+                    i += 1;
+                }
+                Ok(b.len())
+            });
+            assert!(res.is_ok());
+            sends += 1;
+        }
+        // still pending before the deadline ...
+        assert!(fut.as_mut().poll(&mut cx).is_pending());
+        // ... then the deadline (1000 us) passes
+        now += 1001;
+        set_now(now);
+        round += 1;
+    }
+    kani::cover!(choice == max_choice && result.is_some());
+    // never hangs, never succeeds: PDU timeout after exactly 1 + retries transmissions
+    match result {
+        Some(Err(e)) => assert!(e == Error::Timeout(TimeoutError::Pdu)),
+        _ => panic!("request without response did not resolve to a timeout"),
+    }
+    assert!(sends == 1 + r);
+    let s = slot(&pdu_loop, 0);
+    assert!(s.state == FrameState::None);
+    assert!(pdu_loop.alloc_frame().is_ok());
+}
+
+//@ harness: c06_timeout_count_q
+//@ property: C06
+//@ tier: quick
+//@ unwind: 8
+//@ unwindset: timeout_count:32
+//@ timeout: 1500
+//@ functions: ReceiveFrameFut::poll; ReceiveFrameFut::release; timer_factory::timer; embassy_time::Timer::poll; RetryBehaviour::retry_count; PduTx::next_sendable_frame; SendableFrame::send_blocking; PduLoop::wake_sender
+//@ bounds: 1 slot; retry policies None, Count(0), Count(1); every transmission lost; virtual clock steps past each 1000us deadline
+//@ stubs: embassy_time_driver::now -> virtual clock; embassy_time_driver::schedule_wake -> no-op
+//@ assumes: the transmit task services every sendable frame before the next deadline (property's own assumption)
+#[kani::proof]
+#[kani::unwind(8)]
+#[kani::stub(embassy_time_driver::now, crate::verif::support::vnow)]
+#[kani::stub(embassy_time_driver::schedule_wake, crate::verif::support::vschedule_wake)]
+pub fn c06_timeout_count_q() {
+    timeout_count(2);
+}
+
+//@ harness: c06_timeout_count_t
+//@ property: C06
+//@ tier: thorough
+//@ unwind: 8
+//@ unwindset: timeout_count:32
+//@ timeout: 2400
+//@ functions: ReceiveFrameFut::poll; RetryBehaviour::retry_count; SendableFrame::send_blocking
+//@ bounds: as c06_timeout_count_q with Count(2) added (3 transmissions)
+//@ stubs: embassy_time_driver::now -> virtual clock; embassy_time_driver::schedule_wake -> no-op
+//@ assumes: the transmit task services every sendable frame before the next deadline
+#[kani::proof]
+#[kani::unwind(8)]
+#[kani::stub(embassy_time_driver::now, crate::verif::support::vnow)]
+#[kani::stub(embassy_time_driver::schedule_wake, crate::verif::support::vschedule_wake)]
+pub fn c06_timeout_count_t() {
+    timeout_count(3);
+}
+
+// A response that is already there when the deadline is examined wins; Forever never gives up.
+//@ harness: c06_poll_step
+//@ property: C06
+//@ tier: quick
+//@ unwind: 8
+//@ timeout: 1200
+//@ functions: ReceiveFrameFut::poll; ReceiveFrameFut::release; timer_factory::timer; embassy_time::Timer::poll
+//@ bounds: one poll of a future whose slot is forged into each state reachable while it is alive (Sendable, Sending, Sent, RxBusy, RxDone) and every other state; symbolic "deadline passed" flag; retries_left in {0, 1, usize::MAX}
+//@ stubs: embassy_time_driver::now -> virtual clock; embassy_time_driver::schedule_wake -> no-op
+#[kani::proof]
+#[kani::unwind(8)]
+#[kani::stub(embassy_time_driver::now, crate::verif::support::vnow)]
+#[kani::stub(embassy_time_driver::schedule_wake, crate::verif::support::vschedule_wake)]
+pub fn c06_poll_step() {
+    static STORAGE: PduStorage<1, FRAME> = PduStorage::new();
+    let (_tx, _rx, pdu_loop) = STORAGE.try_split().unwrap();
+    let w = noop_waker();
+    let mut cx = Context::from_waker(&w);
+    set_now(0);
+    let rc: u8 = kani::any();
+    let r = match rc % 3 {
+        0 => 0,
+        1 => 1,
+        _ => RetryBehaviour::Forever.retry_count(),
+    };
+    let mut frame = pdu_loop.alloc_frame().unwrap();
+    let _h = frame.push_pdu(Command::fprd(0x1000, 0x0130).into(), (), Some(2)).unwrap();
+    let mut fut = pin!(frame.mark_sendable(&pdu_loop, pdu_timeout(), r));
+    // first poll registers the timer (embassy timers never fire on their first poll)
+    assert!(fut.as_mut().poll(&mut cx).is_pending());
+    // the slot is in an arbitrary state when the future is polled again (whatever TX/RX did meanwhile)
+    let pre = slot(&pdu_loop, 0);
+    let st = any_state();
+    forge(&pdu_loop, 0, Slot { state: st, ..pre });
+    let expired: bool = kani::any();
+    if expired {
+        set_now(5000);
+    }
+    let res = fut.as_mut().poll(&mut cx);
+    let post = slot(&pdu_loop, 0);
+    kani::cover!(st == FrameState::RxDone && expired);
+    kani::cover!(st == FrameState::Sent && expired && r == 0);
+    kani::cover!(st == FrameState::Sent && expired && r == usize::MAX);
+    match st {
+        FrameState::RxDone => {
+            // a response already received wins over the deadline
+            assert!(matches!(res, Poll::Ready(Ok(_))));
+            assert!(post.state == FrameState::RxProcessing);
+        }
+        FrameState::Sendable | FrameState::Sending | FrameState::Sent | FrameState::RxBusy => {
+            if !expired {
+                assert!(res.is_pending() && post == Slot { state: st, ..pre });
+            } else if r == 0 {
+                assert!(matches!(res, Poll::Ready(Err(Error::Timeout(TimeoutError::Pdu)))));
+            } else {
+                // retry: still pending, frame offered to TX again, contents untouched
+                assert!(res.is_pending());
+                assert!(post.state == FrameState::Sendable);
+                assert!(post.first_pdu == pre.first_pdu && post.payload_len == pre.payload_len);
+            }
+        }
+        _ => {
+            // states the future can never legitimately observe: reported as an error, never Ok
+            assert!(!matches!(res, Poll::Ready(Ok(_))));
+        }
+    }
+}
+
+// Abandonment while the transmit side is inside the buffer: the future is dropped from within the
+// send closure (state Sending). Afterwards the slot must not be lost for good.
+//@ harness: c06_drop_in_sending
+//@ property: C06, C03
+//@ tier: quick
+//@ unwind: 8
+//@ timeout: 1200
+//@ functions: ReceiveFrameFut::drop; ReceiveFrameFut::release; SendableFrame::send_blocking; SendableFrame::mark_sent; SendableFrame::release_sending_claim; PduLoop::alloc_frame
+//@ bounds: 1 slot; the awaiting future is dropped while TX is inside send_blocking; send outcome symbolic (ok / partial / error); optionally a competitor allocates+drops a frame in the same window
+//@ stubs: embassy_time_driver::now -> virtual clock; embassy_time_driver::schedule_wake -> no-op
+#[kani::proof]
+#[kani::unwind(8)]
+#[kani::stub(embassy_time_driver::now, crate::verif::support::vnow)]
+#[kani::stub(embassy_time_driver::schedule_wake, crate::verif::support::vschedule_wake)]
+pub fn c06_drop_in_sending() {
+    static STORAGE: PduStorage<1, FRAME> = PduStorage::new();
+    let (mut tx, _rx, pdu_loop) = STORAGE.try_split().unwrap();
+    set_now(0);
+    let mut frame = pdu_loop.alloc_frame().unwrap();
+    let _h = frame.push_pdu(Command::fprd(0x1000, 0x0130).into(), (), Some(2)).unwrap();
+    let mut fut = Some(frame.mark_sendable(&pdu_loop, pdu_timeout(), 0));
+    let sf = tx.next_sendable_frame().unwrap();
+    let outcome: u8 = kani::any();
+    let competitor: bool = kani::any();
+    let _ = sf.send_blocking(|b| {
+        // the caller gives up (task cancelled / outer timeout) while TX is inside the buffer
+        fut = None;
+        if competitor {
+            // another request claims the freed slot and is abandoned before being marked sendable
+            let f2 = pdu_loop.alloc_frame();
+            drop(f2);
+        }
+        match outcome {
+            0 => Ok(b.len()),
+            1 => Ok(b.len() - 1),
+            _ => Err(Error::SendFrame),
+        }
+    });
+    kani::cover!(competitor && outcome == 0);
+    // every handle is gone now: the slot must be allocatable again (not lost for good)
+    assert!(pdu_loop.alloc_frame().is_ok());
+}
